@@ -141,3 +141,23 @@ mod k {
         assert!(b.check::<VClock>(MIN_COST), "fresh bucket grants the minimum charge");
     }
 }
+
+// helpers for harnesses in other modules (private consts/fields are only reachable from here)
+#[cfg(kani)]
+impl super::GenericTokenBucket {
+    pub fn verif_refill_period() -> u32 {
+        Self::MAX_TOKENS / Self::TOKENS_PER_SECOND
+    }
+    // check() of a bucket whose stamp is `s0` at time `now`, with a local clock
+    pub fn verif_idle_grants(s0: u32, now: u32, tokens: u32) -> bool {
+        static mut T: u32 = 0;
+        struct C;
+        impl super::Clock for C {
+            fn now() -> u32 {
+                unsafe { T }
+            }
+        }
+        unsafe { T = now };
+        super::GenericTokenBucket(s0).check::<C>(tokens)
+    }
+}
